@@ -120,7 +120,11 @@ def c12 (c : Ctx) (r : Run) : Verdict :=
   let corr := CheckGen.corrFor cmp ["overrides", "vertex-entries", "fragment-entries"]
   match c.module, r.real with
   | some m, .ok o =>
-    if !decide (OverridesScalar m) then { corr := .fail "hypothesis#overridesScalar: override of non-scalar type or unnamed", spec := .skip "hypothesis" } else
+    -- `OverridesScalar` is what naga's VALIDATOR guarantees (the front end alone lets `override v: vec2<f32>;` through): a module
+    -- the validator rejects is outside the property ("accepted shader"), not a broken hypothesis
+    if !decide (OverridesScalar m) then
+      (if c.valid then { corr := .fail "hypothesis#overridesScalar: override of non-scalar type or unnamed in a module naga's validator accepts", spec := .skip "hypothesis" }
+       else { corr := corr, spec := .skip "override of non-scalar type: the validator rejects the module" }) else
     let spec : Status := if decide (C12Ok m o) then .ok else
       let cl := match o.overrides with
         | none => "struct-missing"
